@@ -410,7 +410,7 @@ func cmdRun(args []string) int {
 			os.WriteFile(rp, data, 0o644)
 		}
 		writeRP()
-		if spec.Native && v.Kind != "race" && v.Kind != "deadlock" {
+		if spec.Native && v.Kind != "race" && v.Kind != "deadlock" && v.Threads <= 1 {
 			// data counterexample of a sequential harness: it must also fail under the real compiler
 			if nativeReplay(*verif, v, rp) {
 				v.Native = "true"
